@@ -25,6 +25,9 @@ Falsified(e) ==
         \cup When(e.out # "panic" /\
                   (IF e.parser = "port_parse" THEN ~PortOK(e.codes, e.res)
                    ELSE ~C17_AcceptsExactly(Expected(e.parser, X(e)), e.out)), "C17_AcceptsExactly")
+        \cup When(e.parser = "craft_multiaddr" /\ e.out # "panic" /\ ~C17_CraftCanonical(e.canon, e.out, e.ident), "C17_CraftCanonical")
+        \cup When(e.parser = "craft_multiaddr" /\ e.out # "panic" /\ ~C17_CraftKeepsPeer(e.inp, e.relay, e.ignore, e.out, e.outp),
+                  "C17_CraftKeepsPeer")
     ELSE IF e.ev = "Validate" THEN
              When(e.out = "panic", "C17_Total")
         \cup When(e.out # "panic" /\ ~ValidateOK(e.single, e.lo, e.hi, e.count, e.out), "C17_AcceptsExactly")
@@ -32,8 +35,17 @@ Falsified(e) ==
              When(e.out = "panic", "C17_Total")
         \cup When(e.out # "panic" /\ ~IncOK(e.has, e.p, e.outhas, e.outp), "C17_AcceptsExactly")
     \* the parsed range walked against the ports other services record (none here): an answer, never a crash
+    \* and against the ports a non-empty registry records: Ok exactly when none of them lies in the range
     ELSE IF e.ev = "Avail" THEN
-             When(e.out # "ok", "C17_Total")
+             When(e.out = "panic", "C17_Total")
+        \cup When(e.out # "panic" /\ ~AvailOK(e.used, e.out), "C17_AcceptsExactly")
+    \* the ANT_PEERS list read from the environment
+    ELSE IF e.ev = "EnvPeers" THEN
+             When(e.out = "panic", "C17_Total")
+        \cup When(e.out # "panic" /\ ~EnvPeersOK(e.nok, e.nout, e.same), "C17_AcceptsExactly")
+    \* add_node on a loaded registry (service numbers and counts at the edge of u16): an answer, never a crash
+    ELSE IF e.ev = "AddNode" THEN
+             When(e.out \notin {"ok", "err"}, "C17_Total")
     ELSE {"Malformed"}
 
 Init == l = 1 /\ viol = {}
